@@ -633,15 +633,31 @@ def exConfig : Cfg := [("watches", .strs ["a"]), ("frame_type", .text "single_fr
 
 def exStack : Stack := [⟨"/app/x.py", "f", 3, 0, []⟩, ⟨"/lib/y.py", "run", 9, 9, [("self", some "Runner")]⟩]
 
+def exSnap : Option Frames.Snapshot :=
+  match snapshot exHeap "tp" "x.py" 3 exConfig ⟨"/app", [], []⟩ (fun _ => false) exStack (fun _ _ => 1) with
+  | .ok s => some s
+  | .error _ => none
+
 set_option maxRecDepth 8000 in
-example :
-    (match snapshot exHeap "tp" "x.py" 3 exConfig ⟨"/app", [], []⟩ (fun _ => false) exStack (fun _ _ => 1) with
-     | .ok s => some (s.frames.map Spec.viewOf, s.frames.map (fun f => f.variables.map (·.name)),
-                      s.table.map (·.vid), s.watches.map (fun w => (w.expr, w.vid, w.error)),
-                      s.tracepoint.get_args.map (·.1))
-     | .error _ => none) =
-    some ([⟨"/app/x.py", "/x.py", "f", 3, none, true⟩, ⟨"/lib/y.py", "/lib/y.py", "run", 9, some "Runner", false⟩],
-          [["a", "xs"], []], [2, 3, 4], [("a", some 2, none)], ["frame_type", "MAX_VARIABLES"]) := by
+example : exSnap.isSome = true := by decide
+
+set_option maxRecDepth 8000 in
+example : exSnap.map (fun s => s.frames.map Spec.viewOf) =
+    some [⟨"/app/x.py", "/x.py", "f", 3, none, true⟩, ⟨"/lib/y.py", "/lib/y.py", "run", 9, some "Runner", false⟩] := by
   decide
+
+set_option maxRecDepth 8000 in
+example : exSnap.map (fun s => s.frames.map (fun f => f.variables.map (·.name))) = some [["a", "xs"], []] := by
+  decide
+
+set_option maxRecDepth 8000 in
+example : exSnap.map (fun s => s.table.map (·.vid)) = some [2, 3, 4] := by decide
+
+set_option maxRecDepth 8000 in
+example : exSnap.map (fun s => s.watches.map (fun w => (w.expr, w.vid, w.error))) = some [("a", some 2, none)] := by
+  decide
+
+set_option maxRecDepth 8000 in
+example : exSnap.map (fun s => s.tracepoint.get_args.map (·.1)) = some ["frame_type", "MAX_VARIABLES"] := by decide
 
 end C02
